@@ -488,7 +488,7 @@ def examine(ctx, batch, case, want, rng, max_all=10):
             ctx.violation("oracle", f"decode-raises-{type(e).__name__}", f"translate_result_bitstring({b!r}) raised {type(e).__name__}: {e}", dict(case, bitstring=b))
             batch.add(lit_decode(inst, L, b, ("err", type(e).__name__)), dict(case, bitstring=b))
     summ["states"] = len(decoded)
-    if complete and len(decoded) == len(strings):
+    if complete and len(decoded) == len(strings) and n == expected_qubits(inst, L):  # the model enumerates 2^(its own qubit count) strings
         batch.add(lit_decode_all(inst, L, [decoded[b][0] for b in strings]), case)
     else:
         for b in strings[:64 if n <= 16 else 6]:
